@@ -61,6 +61,8 @@ Record code_shape := {
   cs_default : list bop;          (* default: arm *)
   cs_restores : bool;             (* WithGlobalTx saves the bound GlobalTransaction and restores it on exit *)
   cs_second : list (role * sp_action);
+  cs_panic_total : bool;          (* the recovered panic value becomes the returned error by a conversion that is total
+                                     (not a type switch / condition that leaves some values out) *)
 }.
 
 Record config := { cf_commit_retry : nat; cf_rollback_retry : nat }.
@@ -368,7 +370,8 @@ Definition shape_ok (cs : code_shape) : bool :=
            lookup_role (cs_second cs) UnKnow with
      | Some SADecide, Some SANothing, Some SAError => true
      | _, _, _ => false
-     end.
+     end
+  && cs_panic_total cs.
 
 (* ---------------------------------------------------------------- observables used in the theorem statements *)
 Definition is_begin (e : ev) : bool := match e with EReq (QBegin _) _ => true | _ => false end.
